@@ -45,8 +45,30 @@ def stmts(rhs):
     yield "load('lib.star', 'lx')\nv = lx\n"
 
 
+def nested_forms():
+    """Rebinding of a global nested two levels deep (inside a top-level if / for / else), in every subset of the branches
+    of an if / elif / else chain, with conditions that make each branch the executed one."""
+    outers = ["if True:\n", "for _i in [1]:\n", "if c:\n    pass\nelse:\n", "for _i in [1]:\n    if True:\n"]
+    for outer in outers:
+        ind = "    " * (2 if outer.count("\n") == 2 and "for" in outer else 1)
+        for k1, k2 in itertools.product(("c", "not c"), repeat=2):
+            for assign in itertools.product((False, True), repeat=3):
+                if not any(assign):
+                    continue
+                for r in ("None", "1", '["a"]'):
+                    body = [f"if {k1}:", f"    v = {r}" if assign[0] else "    pass", f"elif {k2}:", f"    v = {r}" if assign[1] else "    pass",
+                            "else:", f"    v = {r}" if assign[2] else "    pass"]
+                    yield outer + "".join(ind + l + "\n" for l in body)
+                # two-branch chain
+                if not assign[1]:
+                    body = [f"if {k1}:", "    v = None" if assign[0] else "    pass", "else:", "    v = None" if assign[2] else "    pass"]
+                    yield outer + "".join(ind + l + "\n" for l in body)
+
+
 def modules(tier):
     q = tier == "quick"
+    for f_ in nested_forms():
+        yield PRE + "v = 'i'\nw = None\n" + f_
     first = list(stmts(COMMIT + LOOSE))
     second = list(stmts(COMMIT[:6] + LOOSE[:4])) if q else first
     for a in first:
@@ -68,6 +90,34 @@ def well_typed(tier):
     pre = ("x = 1\ns = 'a'\nb = True\nl = [1, 2, 3]\nls = ['p', 'q']\nd = {'a': 1}\nt = (1, 'z')\nts = (1, 'z')\n"
            "def fi(a: int) -> int:\n    return a + 1\ndef fs(a: str) -> str:\n    return a + 'x'\ndef fl(n: int) -> list[int]:\n    return [n, n]\n"
            "def sum_(xs: list[int]) -> int:\n    r = 0\n    for i in xs:\n        r += i\n    return r\n")
+    # heterogeneous literals of 3-4 elements in every arrangement of repeated / distinct element types: each element is
+    # passed to a function annotated with that element's own type (unions must keep every member, in any order)
+    lit = {"int": ["1", "2", "3"], "str": ["'z'", "'y'", "'x'"], "bool": ["True", "False", "True"]}
+    fun = {"int": "fi", "str": "fs", "bool": "fb"}
+    pre_h = pre + "def fb(a: bool) -> bool:\n    return not a\n"
+    for n in (3, 4):
+        for shape in itertools.product(("int", "str", "bool"), repeat=n):
+            if len(set(shape)) < 2 or (tier == "quick" and n == 4 and shape[0] != shape[1]):
+                continue
+            cnt = {"int": 0, "str": 0, "bool": 0}
+            elems = []
+            for ty in shape:
+                elems.append(lit[ty][cnt[ty] % 3])
+                cnt[ty] += 1
+            tup = "(" + ", ".join(elems) + ")"
+            src = pre_h + f"h = {tup}\n" + "".join(f"r{i} = {fun[ty]}(h[{i}])\n" for i, ty in enumerate(shape))
+            src += f"def w() -> ({', '.join(shape)}):\n    return {tup}\nr = w()\n"
+            union = " | ".join(dict.fromkeys(shape))
+            src += f"def u(p: {union}) -> str:\n    return str(p)\nz = [u(e) for e in h]\nk = [u(e) for e in [{', '.join(elems)}]]\n"
+            src += f"def pick(i: int) -> {union}:\n" + "".join(f"    if i == {i}:\n        return {e}\n" for i, e in enumerate(elems[:-1])) + f"    return {elems[-1]}\nq = u(pick(1))\n"
+            yield src
+            # the same with the literal held in a LOCAL variable (locals are typed precisely, globals are not)
+            loc = pre_h + "def loc():\n" + f"    h = {tup}\n" + "".join(f"    r{i} = {fun[ty]}(h[{i}])\n" for i, ty in enumerate(shape))
+            loc += "    out = []\n    for e in " + tup + ":\n" + "".join(
+                f"        if type(e) == \"{ {'int': 'int', 'str': 'string', 'bool': 'bool'}[ty] }\":\n            out.append({fun[ty]}(e))\n" for ty in dict.fromkeys(shape))
+            loc += f"    l = [{', '.join(elems)}]\n    g2 = [u(e) for e in l]\n    return [r0, out, g2]\n"
+            loc += f"def u(p: {union}) -> str:\n    return str(p)\nr = loc()\n"
+            yield loc
     ann = {"int": ints, "str": strs, "bool": bools, "list[int]": lists, "dict[str, int]": dicts}
     for ty, exprs in ann.items():
         for e in exprs:
